@@ -3,6 +3,7 @@ package props
 import (
 	"fmt"
 	"os"
+	"path/filepath"
 	"strings"
 	"testing"
 
@@ -37,7 +38,15 @@ func scratchDir(prefix string) (string, func()) {
 	if err != nil {
 		panic("HARNESS: " + err.Error())
 	}
-	return d, func() { os.RemoveAll(d) }
+	return d, func() {
+		os.RemoveAll(d)
+		// modules laid out directly under the file system root (LModule.Top)
+		if tops, _ := filepath.Glob(topPrefix(d) + "*"); len(tops) > 0 {
+			for _, p := range tops {
+				os.RemoveAll(p)
+			}
+		}
+	}
 }
 
 // c18Resolve materialises the layout, scans the dump with path guessing and returns the
@@ -54,7 +63,7 @@ func c18Resolve(c *c18Case, base string) (*stack.Snapshot, []fileTruth, []*stack
 		case c.L.TestMainAt == 1 && len(c.L.Gopaths) > 0:
 			tm = at.Gopaths[0].Remote + "/src/example.com/p/_test/_testmain.go"
 		case c.L.TestMainAt == 2 && len(c.L.Modules) > 0:
-			tm = base + "/" + c.L.Modules[0].Dir + "/_test/_testmain.go"
+			tm = c.L.Modules[0].root(base) + "/_test/_testmain.go"
 		case c.L.TestMainAt == 3 && c.L.GorootRemote != "":
 			tm = at.GorootRemote + "/src/fmt/_test/_testmain.go"
 		}
@@ -259,6 +268,16 @@ func c18Oracle(c c18Case) error {
 		return nil
 	}
 	st.class("unambiguous_layout_ground_truth", 1)
+	for gi := range c.L.Gopaths {
+		if c.L.Gopaths[gi].ModRemote != "" {
+			st.class("module_cache_under_another_remote_root", 1)
+		}
+	}
+	for mi := range c.L.Modules {
+		if c.L.Modules[mi].Top && canWriteTop() {
+			st.class("module_directly_under_the_file_system_root", 1)
+		}
+	}
 	for i, call := range calls {
 		t := ts[i]
 		if t.Testmain || !t.Known || !t.Present {
